@@ -39,12 +39,25 @@ def history_case(ctx, cid, plan=None, with_long=False, lim=U24_MAX):
         r = rng.random()
         if not plan and r < 0.1:
             prepare(k); continue
-        if with_long and rng.random() < 0.5:
-            par = rng.randrange(nparams[k])
-            for _ in range(rng.randint(1, 3)):
+        if with_long and rng.random() < 0.6:
+            # long data may be followed by anything before the statement is executed: chunks for other
+            # parameters / statements, a re-prepare (which must discard what is pending), a close + prepare
+            for _ in range(rng.randint(1, 4)):
+                kk = k if rng.random() < 0.8 else rng.randrange(nst)
+                if kk not in prepared:
+                    continue
+                par = rng.randrange(nparams[kk])
                 data = progs.rand_bytes(rng, 12) if rng.random() < 0.8 else b""
-                cmds.append(("longdata", cmd_long_data(ids[k], par, data)))
-                pend[(k, par)] = pend.get((k, par), b"") + data
+                cmds.append(("longdata", cmd_long_data(ids[kk], par, data)))
+                pend[(kk, par)] = pend.get((kk, par), b"") + data
+                t = rng.random()
+                if t < 0.15:
+                    prepare(kk)
+                elif t < 0.22:
+                    cmds.append(("close", cmd_close(ids[kk]))); exp.append("close|%d" % ids[kk])
+                    for key in [key for key in pend if key[0] == kk]:
+                        del pend[key]
+                    prepare(kk)
         n = nparams[k]
         if bound[k] is None:
             rebind = True
